@@ -2,8 +2,8 @@
 # seedcheck.sh <Cxx> <k> [check ids...] : validate a seeded change (suite passes, demo fails/passes) and run checks on it
 id=$1; k=$2; shift 2
 checks=${@:-$id}
-src=/tmp/seedout_$id/$k
-[ -d "$src" ] || src=/verif/seeded/${id}_$k
+src=/verif/seeded/${id}_$k
+[ -d "$src" ] || src=/tmp/seedout_$id/$k
 wt=/tmp/sv_${id}_$k
 out=/tmp/seedres/${id}_$k.txt
 {
